@@ -800,6 +800,24 @@ fn prf_purity(seed: u64) -> serde_json::Value {
             if a != b || a != d { return Ok(Some(json!({"found": true, "routine": "prf_purity", "property": "C15", "input": {"op": "PRF", "type": format!("{}", t), "counter": 5}, "what": "PRF output differs between repeated / separate evaluations"}))); }
             if !a.check_type(t.clone())? { return Ok(Some(json!({"found": true, "routine": "prf_purity", "property": "C15", "input": {"op": "PRF", "type": format!("{}", t)}, "what": "PRF output is not a value of the requested type"}))); }
         }
+        // related keys in ONE evaluator instance: keys that share a prefix / suffix / differ in one bit must each give what they give alone, in either order
+        for (what, k2) in [("same first half", { let mut k = key; for b in k[8..].iter_mut() { *b ^= 0x5a; } k }), ("same second half", { let mut k = key; for b in k[..8].iter_mut() { *b ^= 0xa5; } k }), ("last bit flipped", { let mut k = key; k[15] ^= 0x80; k }), ("first bit flipped", { let mut k = key; k[0] ^= 1; k })] {
+            let t = array_type(vec![4], UINT64);
+            let c = simple_context(|g| { let k = g.input(array_type(vec![128], BIT))?; k.prf(9, t.clone()) })?;
+            let cp = simple_context(|g| { let k = g.input(array_type(vec![128], BIT))?; k.permutation_from_prf(9, 50) })?;
+            for ctx in [&c, &cp] {
+                let ev = |e: &mut SimpleEvaluator, k: &[u8; 16]| -> Result<Value> { e.preprocess(ctx)?; e.evaluate_context((*ctx).clone(), vec![Value::from_bytes(k.to_vec())]) };
+                let alone1 = ev(&mut SimpleEvaluator::new(None)?, &key)?; let alone2 = ev(&mut SimpleEvaluator::new(None)?, &k2)?;
+                let mut e = SimpleEvaluator::new(None)?; let a1 = ev(&mut e, &key)?; let a2 = ev(&mut e, &k2)?;
+                let mut f = SimpleEvaluator::new(None)?; let b2 = ev(&mut f, &k2)?; let b1 = ev(&mut f, &key)?;
+                tried += 6;
+                if a1 != alone1 || b1 != alone1 || a2 != alone2 || b2 != alone2 {
+                    return Ok(Some(json!({"found": true, "routine": "prf_purity", "property": "C15", "input": {"key1": key.to_vec(), "key2": k2.to_vec(), "relation": what, "counter": 9},
+                        "what": "the PRF value for a key depends on which other key was evaluated earlier in the same evaluator instance"})));
+                }
+                if alone1 == alone2 { return Ok(Some(json!({"found": true, "routine": "prf_purity", "property": "C15", "input": {"key1": key.to_vec(), "key2": k2.to_vec(), "relation": what}, "what": "two different keys give the same PRF value"}))); }
+            }
+        }
         Ok(None)
     }));
     match r { Ok(Ok(Some(v))) => v, Ok(Ok(None)) => json!({"found": false, "routine": "prf_purity", "tried": tried}),
